@@ -704,6 +704,26 @@ func genC12(rng *hx.Rng, tier string, w *hx.Writer) error {
 			}
 		}
 	}
+	// deals that pass every check a verifier makes but are not what a dealer of a degree t-1 polynomial
+	// produces (library level: the real DistKeyGenerators of all members, run to DistKeyShare)
+	{
+		kr := newKeyring()
+		base := 700000
+		for _, kind := range []string{"fewer-commitments-than-threshold", "one-coefficient-more", "one-coefficient-less"} {
+			for n := 3; n <= 4; n++ {
+				base += 100
+				crashed, err := dkgCrashProbe(kr, rng, n, base, kind)
+				oracle := "ok"
+				if err != nil {
+					oracle = hx.Fail("rig", "the key-generation session could not be set up: "+err.Error())
+				} else if crashed {
+					oracle = hx.Fail("node-crash:key-generation-message", "a key-generation call panicked on a deal with "+kind+" that every verifier approves: "+hx.LastPanic)
+				}
+				w.Put(hx.Case{Entry: "-", Op: 0, Args: hx.L(hx.B([]byte("key-generation-message")), hx.B([]byte(kind)), hx.Zi(n)), Impl: hx.Bool(crashed), Oracle: oracle,
+					Tags: []string{"key-generation-message", "k:" + kind, "library-level", "nt"}})
+			}
+		}
+	}
 	for _, k := range c12P2PKinds {
 		if strings.HasPrefix(k, "hs-") {
 			continue
